@@ -113,7 +113,8 @@ func (f *Formatter) formatIncludeStatement(stmt *ast.IncludeStatement) string {
 
 	buf.Reset()
 	buf.WriteString("include ")
-	buf.WriteString(stmt.Module.String())
+	// Print the module name as it is written, String() would decode its escape sequences
+	buf.WriteString(f.formatExpression(stmt.Module).String())
 	buf.WriteString(";")
 
 	return buf.String()
